@@ -65,12 +65,17 @@ def essential(a, drop=()):
     return (a['rc'], tuple(errs), json.dumps(a['dump'], sort_keys=True))
 
 
+_ph = b"#\\#CIF_2.0\ndata_p\n_x 'unterminated\n_y "
+POISONS = [(_ph + b'v' * (4095 - len(_ph)) + '\u00e9'.encode() + b'\n_z 1\n', ''), ('\U0001F600data_x\n_a 1\n'.encode(), 'p2=20')]
+
+
 def work(chunk):
     ex = worker_exec('fast')
     global SYSDEF
     r = ex.run(['reset', 'cif.new C0', 'defconv US-ASCII'])
     # ICU builds with U_CHARSET_IS_UTF8 ignore the request: the system default is then UTF-8
     SYSDEF = {'US-ASCII': 'us-ascii', 'UTF-8': 'utf-8'}.get(r[2].get('name'), None)
+    defname = r[2].get('name')
     out, n, constrained = [], 0, 0
     cache = {}
     for (mk, bom, p2, enc, force, defenc, pk) in chunk:
@@ -84,7 +89,19 @@ def work(chunk):
         stream = (BOMS[enc] if bom else b'') + raw
         opts = 'p2=%d force=%d' % (p2, force) + (' enc=%s' % ICU_NAME[defenc] if defenc else '')
         try:
-            a = ex.run(['bytes.set B0 %s' % stream.hex(), 'parse.reuse C0 B0 %s' % opts])[1]
+            cmds = []
+            if n % 2 == 0:
+                # an abandoned parse comes first (alternately: stopped with half a two-byte character read, and stopped at a
+                # supplementary character that opens the input); nothing of it may reach the parse of the cell
+                cmds = ['bytes.set B5 %s' % POISONS[(n // 2) % 2][0].hex(), 'parse - B5 eh=die %s' % POISONS[(n // 2) % 2][1]]
+            ans = ex.run(cmds + ['bytes.set B0 %s' % stream.hex(), 'parse.reuse C0 B0 %s' % opts] +
+                         (['parse.reuse C0 B0 %s enc=%s' % (opts, defname)] if (force and not defenc and defname) else []))
+            a = ans[len(cmds) + 1]
+            if force and not defenc and defname:
+                # no encoding name means the default converter: naming that converter explicitly must change nothing
+                a2 = ans[len(cmds) + 2]
+                if isinstance(a, dict) and isinstance(a2, dict) and essential(a) != essential(a2):
+                    out.append(((mk, bom, p2, enc, force, defenc, pk), 'forced default encoding without a name reads differently from the same input with the default converter named explicitly (%s)' % defname + chr(10) + '  got : %s' % str(essential(a))[:500] + chr(10) + '  want: %s' % str(essential(a2))[:500]))
         except Crash as c:
             out.append(((mk, bom, p2, enc, force, defenc, pk), 'crash/hang: %s %s' % (c, c.stderr[-500:])))
             ex = worker_exec('fast')
